@@ -359,6 +359,49 @@ def check_checksum_gate(ctx, facts):
                 ctx.violate("C01.3", F, "entry-without-checksum-gate", b.relfile, st["line"],
                             "an Entry is handed out without a dominating comparison of checksum64(its bytes) with the stored checksum")
     ctx.floor("C01.3", "Entry construction sites", n, 2)
+    check_checksum_fn(ctx, facts)
+
+
+def check_checksum_fn(ctx, facts, rid="C01.3"):
+    """The checksum of the EMPTY payload is the non-zero start value of the fold: a header whose body was zeroed (read_size 0,
+    checksum 0) must not verify.  Accepted shapes: an accumulator initialised with a non-zero constant, updated only inside
+    the loop over the bytes and returned as it is; or `bytes.fold(K, |h, b| ..)` with a non-zero constant K."""
+    try:
+        b = facts.body("config::checksum64")
+    except Exception:
+        ctx.anchor_missing(rid, "config::checksum64")
+        return
+    ctx.saw_body(b)
+    F = "config::checksum64"
+    rets = [st for site, st in b.assigns() if st["place"]["l"] == 0 and not st["place"]["p"]]
+    call_rets = [c for c in b.calls() if c.node["dest"]["l"] == 0 and not c.node["dest"]["p"]]
+    ok = None
+    why = ""
+    if len(call_rets) == 1 and not rets and re.search(r"Iterator>?::fold$", strip_generics(callee_name(call_rets[0].node))):
+        k = const_of(b, call_rets[0].node["args"][1]) if len(call_rets[0].node["args"]) > 1 else None
+        ok = k is not None and k != 0
+        why = "fold started from %s" % (hex(k) if k is not None else "a value that is not a constant")
+    elif rets and not call_rets and all(st["rv"]["k"] == "use" for st in rets):
+        accs = {op_local(b.resolve_copy(st["rv"]["op"])) for st in rets}
+        if len(accs) == 1 and None not in accs:
+            acc = next(iter(accs))
+            defs = b.defs.get(acc, [])
+            inits = [n_["rv"]["op"].get("val") for s_, k_, n_ in defs if k_ == "assign" and n_["rv"]["k"] == "use" and n_["rv"]["op"].get("k") == "const"]
+            others = [(s_, k_, n_) for s_, k_, n_ in defs if not (k_ == "assign" and n_["rv"]["k"] == "use" and n_["rv"]["op"].get("k") == "const")]
+            in_loop = all(b.enclosing_loop(s_.bb)[1] is not None for s_, k_, n_ in others)
+            upd = all((k_ == "call" and re.search(r"::wrapping_mul$", strip_generics(n_.get("callee") or ""))) or (k_ == "assign" and n_["rv"]["k"] in ("bin", "use")) for s_, k_, n_ in others)
+            ok = len(inits) == 1 and inits[0] not in (0, None) and in_loop and upd and bool(others)
+            why = "accumulator started from %s" % (hex(inits[0]) if len(inits) == 1 and inits[0] is not None else inits)
+    if ok:
+        ctx.ok(rid, F, "the checksum of the empty payload is the fold's non-zero start value (%s): a zeroed header does not verify" % why, b.relfile, b.line)
+    elif ok is False:
+        ctx.violate(rid, F, "empty-payload-checksum-not-the-start-value", b.relfile, b.line,
+                    "checksum64 does not return its accumulator started from one non-zero constant on every path (%s): for the empty payload it can yield 0, the value a zeroed "
+                    "header carries, so a header whose metadata was zeroed verifies and is delivered as an (empty) entry that was never appended" % why)
+    else:
+        ctx.violate(rid, F, "checksum-shape-undecided", b.relfile, b.line,
+                    "checksum64 is neither an accumulator loop nor a fold from a constant: what it returns for the empty payload cannot be established (a defaulted 0 would make a "
+                    "zeroed header verify): fail closed")
 
 
 def check_seal_fold(ctx, facts):
